@@ -52,6 +52,10 @@ TRUSTED = [
     "harness/props/c13_hist.py:PY_FLAV (modelled: python iterator protocol, itertools.tee, ControlStream's generator); the "
     "coefficients of a time-varying design at an instant are read from the Stream objects in filt.numdict / filt.dendict, one "
     "item per instant; the contract quantities of an instant are computed by the harness from those coefficient lists",
+    "isolation (harness/props/c13_hist.py:zygote_start): a process forked before the first case runs forks one child per "
+    "request; the first 150 hist / combhist cases of a run always run there, and every case of any entry that disagrees "
+    "in-process is run again there: the reported witness is the isolated observation when the case fails alone too, and "
+    "is labelled ':only-after-earlier-cases' otherwise",
     "entry run / combhist / long comb delays: the filter loop itself is C04's model (ALV.C04.fspec run by the driver on the "
     "model coefficients); C13's own theorems comb_fb_eq_spec / comb_ff_eq_spec identify it with the difference equations",
 ]
@@ -276,6 +280,21 @@ def _param(p):
 
 
 def impl(c):
+    """hist / combhist: the first ISO_ALWAYS of a run alone in a fresh process (harness/props/c13_hist.py:zygote_start),
+    everything else in this process — and again alone in a fresh process when it disagrees (see compare)"""
+    hist.zygote_start()            # fork the pristine process before this process runs its first case
+    if c["entry"] in ("hist", "combhist"):
+        hist._ISO["n"] += 1
+        if hist._ISO["n"] <= hist.ISO_ALWAYS:
+            io = hist.isolated_impl(c)
+            if io is not None:
+                return io
+    io = impl_here(c)
+    io["isolated"] = False
+    return io
+
+
+def impl_here(c):
     import audiolazy as al
     e = c["entry"]
     if e == "hist":
@@ -566,12 +585,35 @@ def _problems(c, io, drv):
     return out
 
 
+AFTER = ":only-after-earlier-cases"
+
+
+def _problems_iso(c, io, drv):
+    """a case that disagrees in this process is run again alone in a fresh process: when it fails there too, that
+    observation is the witness (self-contained); when it does not, the library kept state from the earlier cases of
+    this run — still a violation (the designs must not depend on earlier calls), labelled as such"""
+    ps = _problems(c, io, drv)
+    if ps and io.get("isolated") is False:
+        io2 = hist.isolated_impl(c)
+        if io2 is not None:
+            ps2 = _problems(c, io2, drv)
+            if ps2:
+                io.clear()
+                io.update(io2)
+                return ps2
+            io["only_after_earlier_cases"] = True
+    if io.get("only_after_earlier_cases"):
+        ps = [(k, cl + AFTER, "only after the earlier cases of this run (agrees when run alone in a fresh process: the "
+               "library keeps state between calls): " + d) for k, cl, d in ps]
+    return ps
+
+
 def compare(c, io, drv):
-    return [(k, "%s: %s" % (cl, d)) for k, cl, d in _problems(c, io, drv)]
+    return [(k, "%s: %s" % (cl, d)) for k, cl, d in _problems_iso(c, io, drv)]
 
 
 def classify(c, io, drv):
-    ps = _problems(c, io, drv)
+    ps = _problems_iso(c, io, drv)
     spec = [p for p in ps if p[0] == "spec"]
     if spec:
         return spec[0][1]
